@@ -44,6 +44,12 @@ def handle(req):
             same = values.build(req['recipe'], perm=req['perms'][0])
             _failing_dump_then_repair(same, dumper, opts)
             continue
+        if prc and prc[0] == 'other':
+            try:
+                dump(values.build(prc[1]), prc[2]['dumper'], prc[2]['opts'])
+            except Exception:
+                pass                 # e.g. a sort_keys flip on a mixed-key value: the history is what matters
+            continue
         if prc and prc[0] == 'fail':
             try:
                 o = dict(opts)
